@@ -307,7 +307,7 @@ LogView(S) == [i \in 1..Len(S.log) |-> Item(S, S.log[Len(S.log) + 1 - i])]
 ItemMatches(x, o) ==
     /\ o.addr = x.addr /\ o.cid = x.cid /\ o.n = x.name /\ o.t = x.qt
     /\ o.reason = x.reason /\ o.status = x.rcode /\ o.cname = x.cname
-    /\ SeqToSet(o.addrs) = x.addrs /\ Len(o.addrs) = Cardinality(x.addrs)
+    /\ SeqToSet(o.addrs) = x.addrs      \* as sets: a rewrite entry added twice answers twice
     /\ o.svc = x.svc /\ o.proto = x.proto
     /\ (o.hasinfo => o.who \in x.names /\ o.dis \in x.dis)
 
@@ -373,6 +373,6 @@ ReplyOK(o, r, asked) ==
     /\ r.c = o.cls
     /\ (o.cls = "answer" =>
           /\ r.rcode = o.rcode /\ r.cname = o.cname
-          /\ SeqToSet(r.addrs) = o.addrs /\ Len(r.addrs) = Cardinality(o.addrs))
+          /\ SeqToSet(r.addrs) = o.addrs)
     /\ SeqToSet(asked) = o.asked /\ Len(asked) = Cardinality(o.asked)
 =============================================================================
